@@ -27,11 +27,16 @@
                      [r'(?s)shell\s*\.env_mut\(\)\s*\.update_or_add_array_element\(.*?\)\s*\.map_err\(\|_err\| EvalError::FailedToUpdateEnvironment\)', r'__o.store_element(index_str)', 1]]},
  'dispatch_d': {'file': 'brush-core/src/arithmetic.rs', 'start': r'^fn eval_expr_impl\(', 'mode': 'fn_body',
         'rewrites': [[r'eval_expr_impl\((\w+), shell, ([^)]+)\)', r'__o.ev(\1, \2)', 4],
-                     [r'deref_lvalue\(shell, (\w+), ([^)]+)\)', r'__o.deref(\1, \2)', 1],
-                     [r'assign\(shell, (\w+), (\w+), ([^)]+)\)', r'__o.assign(\1, \2, \3)', 2],
+                     [r'pin_subscript\(shell, &?(\w+), ([^)]+)\)', r'__o.pin(&\1, \2)', 0],
+                     [r'deref_lvalue\(shell, &?(\w+), ([^)]+)\)', r'__o.deref(&\1, \2)', 1],
+                     [r'assign\(shell, &?(\w+), (\w+), ([^)]+)\)', r'__o.assign(&\1, \2, \3)', 2],
                      [r'apply_unary_op\(shell, \*op, (\w+), ([^)]+)\)', r'__o.unop(*op, \1, \2)', 1],
-                     [r'apply_unary_assignment_op\(shell, (\w+), \*op, ([^)]+)\)', r'__o.incdec(\1, *op, \2)', 1],
+                     [r'apply_unary_assignment_op\(shell, &?(\w+), \*op, ([^)]+)\)', r'__o.incdec(&\1, *op, \2)', 1],
                      [r'apply_binary_op\(\s*shell,\s*\*op,\s*([^,]+),\s*([^,]+),\s*([^,)]+),?\s*\)', r'__o.binop(*op, \1, \2, \3)', 2],
+                     [r'(\w+)\.eval\(shell\)', r'__o.eval_restart()', 0]]},
+ 'pin_d': {'file': 'brush-core/src/arithmetic.rs', 'start': r'^fn pin_subscript\(', 'mode': 'fn_body', 'if_absent': 'Ok(lvalue.clone())',
+        'rewrites': [[r'eval_expr_impl\(index_expr, shell, ([^)]+)\)', r'__o.eval_index_value(\1)', 1],
+                     [r'Box::new\(ast::ArithmeticExpr::Literal\((\w+)\)\)', r'ast::Kid::pinned(\1)', 1],
                      [r'(\w+)\.eval\(shell\)', r'__o.eval_restart()', 0]]},
  'binop_d': {'file': 'brush-core/src/arithmetic.rs', 'start': r'^fn apply_binary_op\(', 'mode': 'fn_body',
         'rewrites': [[r'eval_expr_impl\((\w+), shell, ([^)]+)\)', r'__o.sub(\2)', 6], [r'(\w+)\.eval\(shell\)', r'__o.eval_restart()', 0]]},
@@ -52,6 +57,9 @@ pub mod ast {
     pub use brush_parser::ast::{BinaryOperator, UnaryAssignmentOperator, UnaryOperator};
     #[derive(Clone, Copy, PartialEq, Eq)]
     pub struct Kid(pub u8);
+    /// a subscript that has already been evaluated (a literal): evaluating it again has no side effect
+    impl Kid { pub const PINNED: u8 = 200; pub fn pinned(_v: i64) -> Kid { Kid(Self::PINNED) } }
+    impl ArithmeticTarget { pub fn unpinned_subscripts(&self) -> u8 { match self { ArithmeticTarget::ArrayElement(_, k) if k.0 != Kid::PINNED => 1, _ => 0 } } }
     #[derive(Clone, PartialEq, Eq)]
     pub enum ArithmeticTarget { Variable(Name), ArrayElement(Name, Kid) }
     #[derive(Clone, Copy, PartialEq, Eq)]
@@ -63,9 +71,10 @@ pub mod ast {
     }
 }
 /// what an operand handed to a nested evaluator looks like: a sub-expression token, or a freshly built reference to the assignment target
-pub trait Operand { fn tag(&self) -> u8; }
+pub trait Operand { fn tag(&self) -> u8; fn subs(&self) -> u8 { 0 } }
 impl Operand for &ast::Kid { fn tag(&self) -> u8 { self.0 } }
-impl Operand for &ast::ArithmeticExpr { fn tag(&self) -> u8 { match self { ast::ArithmeticExpr::Reference(_) => 100, ast::ArithmeticExpr::Literal(_) => 101, _ => 102 } } }
+impl Operand for &ast::ArithmeticExpr { fn tag(&self) -> u8 { match self { ast::ArithmeticExpr::Reference(_) => 100, ast::ArithmeticExpr::Literal(_) => 101, _ => 102 } }
+    fn subs(&self) -> u8 { match self { ast::ArithmeticExpr::Reference(t) => t.unpinned_subscripts(), _ => 0 } } }
 
 pub struct DOracle {
     pub depth: u32,              // the depth the step under test was entered with
@@ -74,29 +83,41 @@ pub struct DOracle {
     pub parsed_evals: u8, pub parsed_depth: u32,
     pub parse_kind: u8,          // 0 literal, 1 non-literal, 2 parse error
     pub val: i64, pub stores: u8,
+    pub octal_looking: bool,
+    pub subs: u8,                // how many times the dispatch step (through its callees' contracts) evaluates the target's subscript expression
+    pub pins: u8, pub pin_depth: u32,
     // event log of the dispatch step: (kind, operand tag, second tag); kinds 1 ev, 2 deref, 3 assign, 4 unop, 5 incdec, 6 binop
     pub ev: [(u8, u8, u8); 4], pub n: usize, pub vals: [i64; 4], pub assigned: Option<i64>, pub opseen: Option<u8>,
 }
 impl DOracle {
     pub fn new(depth: u32) -> Self {
         let pk: u8 = kani::any(); kani::assume(pk < 3);
-        DOracle { depth, min_seen: u32::MAX, max_seen: 0, calls: 0, restarts: 0, index_evals: 0, index_depth: 0, parsed_evals: 0, parsed_depth: 0, parse_kind: pk, val: kani::any(), stores: 0,
+        DOracle { depth, min_seen: u32::MAX, max_seen: 0, calls: 0, restarts: 0, index_evals: 0, index_depth: 0, parsed_evals: 0, parsed_depth: 0, parse_kind: pk, val: kani::any(), stores: 0, octal_looking: kani::any(), subs: 0, pins: 0, pin_depth: 0,
                   ev: [(0, 0, 0); 4], n: 0, vals: [kani::any(), kani::any(), kani::any(), kani::any()], assigned: None, opseen: None }
     }
     fn note(&mut self, d: u32) { self.calls += 1; if d < self.min_seen { self.min_seen = d; } if d > self.max_seen { self.max_seen = d; } }
     fn log(&mut self, k: u8, a: u8, b: u8, d: u32) -> i64 { self.note(d); let i = self.n; kani::assume(i < 4); self.ev[i] = (k, a, b); self.n += 1; self.vals[i] }
     fn sub(&mut self, d: u32) -> Result<i64, EvalError> { self.note(d); Ok(self.val) }
     fn ev(&mut self, e: &ast::Kid, d: u32) -> Result<i64, EvalError> { Ok(self.log(1, e.0, 0, d)) }
-    fn deref(&mut self, _l: &ast::ArithmeticTarget, d: u32) -> Result<i64, EvalError> { Ok(self.log(2, 0, 0, d)) }
-    fn assign(&mut self, _l: &ast::ArithmeticTarget, v: i64, d: u32) -> Result<i64, EvalError> { self.log(3, 0, 0, d); self.assigned = Some(v); Ok(v) }
+    // contracts of the callees with respect to the subscript (vk_c01_deref_depth_guard, vk_c07_assign_depth, vk_c01_depth_passed_unchanged):
+    // deref_lvalue and assign each evaluate the subscript expression of an element target once; the increment routine does both
+    fn deref(&mut self, l: &ast::ArithmeticTarget, d: u32) -> Result<i64, EvalError> { self.subs += l.unpinned_subscripts(); Ok(self.log(2, 0, 0, d)) }
+    fn assign(&mut self, l: &ast::ArithmeticTarget, v: i64, d: u32) -> Result<i64, EvalError> { self.subs += l.unpinned_subscripts(); self.log(3, 0, 0, d); self.assigned = Some(v); Ok(v) }
+    /// pin_subscript (vk_c07_pin_subscript): evaluates the subscript once and returns the target with a literal subscript
+    fn pin(&mut self, l: &ast::ArithmeticTarget, d: u32) -> Result<ast::ArithmeticTarget, EvalError> {
+        self.note(d); self.pins += 1; self.subs += l.unpinned_subscripts();
+        Ok(match l { ast::ArithmeticTarget::ArrayElement(n, _) => ast::ArithmeticTarget::ArrayElement(*n, ast::Kid(ast::Kid::PINNED)), ast::ArithmeticTarget::Variable(n) => ast::ArithmeticTarget::Variable(*n) })
+    }
+    fn eval_index_value(&mut self, d: u32) -> Result<i64, EvalError> { self.index_evals += 1; self.index_depth = d; self.note(d); Ok(self.val) }
     fn unop(&mut self, _op: ast::UnaryOperator, e: &ast::Kid, d: u32) -> Result<i64, EvalError> { Ok(self.log(4, e.0, 0, d)) }
-    fn incdec(&mut self, _l: &ast::ArithmeticTarget, _op: ast::UnaryAssignmentOperator, d: u32) -> Result<i64, EvalError> { Ok(self.log(5, 0, 0, d)) }
-    fn binop<L: Operand, R: Operand>(&mut self, op: ast::BinaryOperator, l: L, r: R, d: u32) -> Result<i64, EvalError> { self.opseen = Some(op as u8); Ok(self.log(6, l.tag(), r.tag(), d)) }
+    fn incdec(&mut self, l: &ast::ArithmeticTarget, _op: ast::UnaryAssignmentOperator, d: u32) -> Result<i64, EvalError> { self.subs += 2 * l.unpinned_subscripts(); Ok(self.log(5, 0, 0, d)) }
+    fn binop<L: Operand, R: Operand>(&mut self, op: ast::BinaryOperator, l: L, r: R, d: u32) -> Result<i64, EvalError> { self.opseen = Some(op as u8); self.subs += l.subs() + r.subs(); Ok(self.log(6, l.tag(), r.tag(), d)) }
     fn eval_restart(&mut self) -> Result<i64, EvalError> { self.restarts += 1; self.note(0); Ok(self.val) }
     fn eval_index(&mut self, d: u32) -> Result<String, EvalError> { self.index_evals += 1; self.index_depth = d; self.note(d); Ok(String::new()) }
     fn eval_index_restart(&mut self) -> Result<String, EvalError> { self.index_evals += 1; self.restarts += 1; self.index_depth = 0; self.note(0); Ok(String::new()) }
-    fn var_value(&mut self) -> Result<Cow<'static, str>, EvalError> { Ok(Cow::Borrowed("")) }
-    fn array_value(&mut self, _i: &str) -> Cow<'static, str> { Cow::Borrowed("") }
+    // contents that look like a plain decimal number to str::parse but are octal to the shell: every value must go through the arithmetic parser
+    fn var_value(&mut self) -> Result<Cow<'static, str>, EvalError> { Ok(Cow::Borrowed(if self.octal_looking { "010" } else { "" })) }
+    fn array_value(&mut self, _i: &str) -> Cow<'static, str> { Cow::Borrowed(if self.octal_looking { "010" } else { "" }) }
     fn parse(&mut self) -> Result<ast::ArithmeticExpr, ()> {
         match self.parse_kind { 0 => Ok(ast::ArithmeticExpr::Literal(7)), 1 => Ok(ast::ArithmeticExpr::Reference(ast::ArithmeticTarget::Variable(ast::Name))), _ => Err(()) }
     }
@@ -110,6 +131,9 @@ fn t_deref(lvalue: &ast::ArithmeticTarget, depth: u32, __o: &mut DOracle) -> Res
 }
 fn t_assign(lvalue: &ast::ArithmeticTarget, value: i64, depth: u32, __o: &mut DOracle) -> Result<i64, EvalError> {
 /*@LIFT assign_d*/
+}
+fn t_pin(lvalue: &ast::ArithmeticTarget, depth: u32, __o: &mut DOracle) -> Result<ast::ArithmeticTarget, EvalError> {
+/*@LIFT pin_d*/
 }
 fn t_dispatch(expr: &ast::ArithmeticExpr, depth: u32, __o: &mut DOracle) -> Result<i64, EvalError> {
 /*@LIFT dispatch_d*/
@@ -189,7 +213,7 @@ fn vk_c01_depth_passed_unchanged() {
     assert!(o.min_seen == depth && o.max_seen == depth, "C01.depth.passed_unchanged_to_every_nested_call");
 }
 
-//@proof {'props': ['C07', 'C01'], 'tier': 'quick', 'timeout': 900, 'uses': ['dispatch_d'], 'bounds': 'one evaluator step on each of the 8 expression kinds (symbolic); compound-assignment operator among the 11 (symbolic); sub-evaluation results any i64; depth 0..=MAX symbolic', 'desc': 'dispatch contract of eval_expr_impl: a literal is itself; a reference is dereferenced; ?: evaluates the condition then exactly the selected branch; x = e evaluates e then stores that value; x op= e applies op to (a reference to x, the *unevaluated* e) - so x is read before any side effect of e - then stores the result once; ++/-- go to the increment routine; every nested call carries the caller\'s depth'}
+//@proof {'props': ['C07', 'C01'], 'tier': 'quick', 'timeout': 900, 'uses': ['dispatch_d', 'pin_d'], 'bounds': 'one evaluator step on each of the 8 expression kinds (symbolic); compound-assignment operator among the 11 (symbolic); sub-evaluation results any i64; depth 0..=MAX symbolic', 'desc': 'dispatch contract of eval_expr_impl: a literal is itself; a reference is dereferenced; ?: evaluates the condition then exactly the selected branch; x = e evaluates e then stores that value; x op= e applies op to (a reference to x, the *unevaluated* e) - so x is read before any side effect of e - then stores the result once; ++/-- go to the increment routine; every nested call carries the caller\'s depth'}
 #[kani::proof]
 #[kani::unwind(3)]
 fn vk_c07_dispatch_contract() {
@@ -218,6 +242,9 @@ fn vk_c07_dispatch_contract() {
     kani::cover!(k == 4 && o.vals[0] == 0, "else_branch");
     kani::cover!(k == 5 && is_elem, "element_assignment");
     assert!(o.restarts == 0 && (o.calls == 0 || (o.min_seen == depth && o.max_seen == depth)), "C01.depth.passed_unchanged_to_every_nested_call");
+    // side effects in a subscript (a[i++] += 1, a[i++]++) must happen once, and the element read is the element written
+    if k == 1 || k >= 5 { assert!(o.subs == is_elem as u8, "C07.dispatch.target_subscript_evaluated_exactly_once"); }
+    kani::cover!(k == 6 && is_elem, "increment_of_an_array_element");
     match k {
         0 => assert!(o.n == 0 && v == lit, "C07.dispatch.literal_is_itself"),
         1 => assert!(o.n == 1 && o.ev[0].0 == 2 && v == o.vals[0], "C07.dispatch.reference_is_dereferenced_once"),
@@ -236,4 +263,19 @@ fn vk_c07_dispatch_contract() {
             assert!(o.ev[1].0 == 3 && o.assigned == Some(o.vals[0]) && v == o.vals[0], "C07.opassign.stores_result_once_and_yields_it");
         }
     }
+}
+
+//@proof {'props': ['C07', 'C01'], 'tier': 'quick', 'timeout': 600, 'uses': ['pin_d'], 'bounds': 'depth 0..=MAX symbolic; target a variable or an array element', 'desc': 'pinning the target of a read-modify-write: an element subscript is evaluated exactly once, at the caller\'s depth, and replaced by its value; a plain variable is returned as is'}
+#[kani::proof]
+#[kani::unwind(3)]
+fn vk_c07_pin_subscript() {
+    let depth = any_depth();
+    let is_elem: bool = kani::any();
+    let lv = if is_elem { elem() } else { var() };
+    let mut o = DOracle::new(depth);
+    let r = t_pin(&lv, depth, &mut o);
+    kani::cover!(is_elem, "element_target");
+    assert!(o.restarts == 0 && o.index_evals <= 1 && (o.index_evals == 0 || o.index_depth == depth), "C01.depth.pin_subscript_at_callers_depth");
+    match &r { Ok(t) => assert!(t.unpinned_subscripts() + o.index_evals == is_elem as u8, "C07.pin.subscript_evaluated_iff_the_result_is_pinned"), Err(_) => assert!(false, "C07.pin.cannot_fail_when_the_subscript_evaluates") }
+    std::mem::forget(r); std::mem::forget(lv);
 }
